@@ -32,6 +32,7 @@ type fnResult struct {
 	abstracted []string
 	trusted []string
 	entryReach Term
+	interest []interestTerm
 	entryVerdict string
 }
 
@@ -108,6 +109,9 @@ func verifyFunction(P *Program, db *SpecDB, R *Resolver, fs *FuncSpec, fn *ssa.F
 	for _, fv := range fn.FreeVars {
 		frees = append(frees, e.freshVal(fv.Type(), "free."+fv.Name(), st.Alloc))
 	}
+	for i, p := range fn.Params {
+		res.interest = append(res.interest, e.interestTerms(st, p.Name(), args[i], p.Type(), 0)...)
+	}
 	f := e.newFnEnc(fn, fs, 0, true)
 	f.args = args
 	f.frees = frees
@@ -144,6 +148,9 @@ func verifyFunction(P *Program, db *SpecDB, R *Resolver, fs *FuncSpec, fn *ssa.F
 	reach := tTrue
 	ctx := &SpecCtx{e: e, f: f, vars: f.topVars(), st: st, old: st, pkg: f.fnPkg()}
 	for _, c := range fs.Requires {
+		reach = tAnd(reach, ctx.evalBool(c.E))
+	}
+	for _, c := range fs.Needs {
 		reach = tAnd(reach, ctx.evalBool(c.E))
 	}
 	reach = e.defineAlways("entry", reach)
@@ -295,7 +302,7 @@ func main() {
 				continue
 			}
 			idx++
-			jobs = append(jobs, job{o, &r.prelude, &r.weak, idx})
+			jobs = append(jobs, job{o, &r.prelude, &r.weak, idx, r.interest})
 		}
 	}
 	tEnc := time.Since(t0).Seconds() - tLoad
